@@ -548,7 +548,7 @@ func c16Trunc(s string) string {
 	return s
 }
 
-const c16Rule = "catalogue struct types x random rows x random writer configuration (page version, codec, page/row-group/dictionary limits) x histories with poison-on-release active: GenericReader.Read/Read[T] batches deep-copied at hand-over and re-compared after every later Read, SeekToRow, ReadRows, Close and heavy pool churn by unrelated readers/writers of all codecs; ReadRows results compared just before the next call on the same reader, their clones forever; page values while the page is held, clones after Release; rows and slices passed to Write/WriteRows/Buffer (with sorting) compared before/after; non-trivial = the type has a byte-array column holding a non-empty value and at least two hand-overs were held across later calls; plus row readers over converted and merged row groups (permuted schema), caller []Row batches kept alive across Reset / later writes / sorting-run flushes, and hand-written map-typed struct fields read into reused destination slices"
+const c16Rule = "catalogue struct types x random rows x random writer configuration (page version, codec, page/row-group/dictionary limits) x histories with poison-on-release active: GenericReader.Read/Read[T] batches deep-copied at hand-over and re-compared after every later Read, SeekToRow, ReadRows, Close and heavy pool churn by unrelated readers/writers of all codecs; ReadRows results compared just before the next call on the same reader, their clones forever; page values while the page is held (file pages and AsyncPages), clones after Release; rows and slices passed to Write/WriteRows/Buffer (with sorting) compared before/after; non-trivial = the type has a byte-array column holding a non-empty value and at least two hand-overs were held across later calls; plus row readers over converted and merged row groups (permuted schema), caller []Row batches kept alive across Reset / later writes / sorting-run flushes, and hand-written map-typed struct fields read into reused destination slices"
 
 func c16HistoriesInProcess(ctx *core.Ctx) {
 	ctx.SetRule(c16Rule)
@@ -1076,6 +1076,15 @@ func c16PagesHistory(h *c16Hist, file []byte, r *rand.Rand) {
 				}
 			}()
 			pages := ccs[ci].Pages()
+			if r.Intn(3) == 0 {
+				// the asynchronous page reader: pages are read ahead on another goroutine and handed
+				// over through a channel; what the caller holds must be just as stable
+				pages = parquet.AsyncPages(pages)
+				h.op("col%d.AsyncPages", ci)
+				h.ctx.Hist("pages-reader", "async")
+			} else {
+				h.ctx.Hist("pages-reader", "sync")
+			}
 			var held []heldPage
 			checkHeld := func(stage string) {
 				for i := range held {
@@ -2061,7 +2070,10 @@ func c16PagesAPICase(ctx *core.Ctx, d c16Asker, r *rand.Rand, k int) {
 			row := r.Int63n(int64(nrows))
 			target := pageOf(row)
 			same := "0"
-			if lastIdx >= 0 && target == lastIdx {
+			// file.go SeekToRow: the cached page is served only when the target is the last returned page
+			// AND the stream still stands right behind it (`f.index == target+1`; not so when another
+			// seek moved it since) - otherwise the page is read again
+			if lastIdx >= 0 && target == lastIdx && nextIdx == lastIdx+1 {
 				same = "1"
 			} else if nextIdx != target {
 				nextIdx = target
